@@ -408,6 +408,12 @@ def run_e2c(prog, rep):
             targets = [tgt] if tgt in prog.fns else []
             if fr.get("trait") and (fr.get("rkind") == "virtual" or not fr.get("rdef") or fr.get("rdef") == fr["def"]):
                 targets += cg.trait_impls.get((fr["trait"], fr["def"].rsplit("::", 1)[-1]), [])
+            # a foreign higher-order call (try_for_each, map, …) runs the local closures it is given
+            for a in t["args"]:
+                if a.get("k") in ("copy", "move") and "p" not in a["p"]:
+                    at = f.crate.peel(body.locals[a["p"]["l"]]["ty"])
+                    if at is not None and at.k == "closure" and at.path:
+                        targets.append(at.path)
             if not any(x in canc for x in targets):
                 continue
             if is_callee(t, POLL):
@@ -451,6 +457,9 @@ def run_e2c(prog, rep):
                                 work.append(u[3]["dest"]["l"])
                         elif u[0] in ("rv", "ref") and "p" not in u[3]:
                             work.append(u[3]["l"])
+                # a result that is kept and returned later is propagated at the return
+                if any(c.kind == "RETURN" for c in cons):
+                    try_blocks |= set(body.return_blocks())
                 if try_blocks and t["t"] is not None:
                     between = body.reach_from([t["t"]], avoid=try_blocks)
                     for x in sorted(between):
